@@ -26,6 +26,11 @@ def generate(rng, tier):
             if rng.random() < 0.25:
                 c = replace_at(c, p, [nd[0], nd[1], e_str(rng.choice(DOCS))])
         out.append(c)
+    # name clashes between bases, so that inherited copies get renamed (with their docs)
+    from .c07 import clash_worlds
+    o2 = gen.Opts(p_doc=0.8, p_base=0.8, p_impl=0.8, p_vftable=0.3, p_enum=0.0, p_backend=0.0, p_extern_val=0.0, p_priv=0.2,
+                  max_modules=2, max_items=6, max_fields=2, p_packed=0.0)
+    out += clash_worlds(rng, n // 4, o2)
     return out
 
 def spec_derives(attrs, is_enum):
@@ -112,6 +117,21 @@ def judge(c, impl, model):
                     if list(find(mt, 'docs')[1:]) != doc_lines(fn_attrs(f)):
                         report('C17/method-doc', '%s::%s: written %s, emitted %s' % (name, fn_name(f), doc_lines(fn_attrs(f)), list(find(mt, 'docs')[1:])))
                     anydoc = anydoc or bool(doc_lines(fn_attrs(f)))
+                # copies inherited from bases keep the documentation (and visibility) of the original
+                base_of = {stt[2]: stt[3][1] for stt in type_stmts(d) if stmt_is_field(stt) and has_ident(stt[4][1:], 'base') and tag(stt[3]) == 'id'}
+                for mt in impl_methods(im) if im is not None else []:
+                    body = method_body(mt)
+                    if tag(body) != 'call-field' or body[1] not in base_of:
+                        continue
+                    bim = None
+                    for its in files.values():
+                        bim = bim or find_item(its, 'impl', base_of[body[1]])
+                    orig = [x for x in impl_methods(bim) if method_name(x) == body[2]] if bim is not None else []
+                    if len(orig) == 1:
+                        n += 1
+                        if list(find(mt, 'docs')[1:]) != list(find(orig[0], 'docs')[1:]):
+                            report('C17/inherited-copy-doc', '%s::%s: base has %s, copy has %s' % (name, method_name(mt), list(find(orig[0], 'docs')[1:]), list(find(mt, 'docs')[1:])))
+                        anydoc = anydoc or bool(find(orig[0], 'docs')[1:])
                 if vfns:
                     vs = find_item(items, 'struct', name + 'Vftable')
                     if vs is not None:
